@@ -354,7 +354,9 @@ func (gs *GenState) genRejected(r *rand.Rand, m *Model) Op {
 				pos = 1 + r.Intn(len(items))
 			}
 			items = append(items[:pos], append([]Item{dup}, items[pos:]...)...)
-			return Op{K: "addbatch", Idx: ix, Items: items, Expect: "reject"}
+			// the same through the import path (no journal, its own batch threshold: per-item insertion below it,
+			// the parallel path above it)
+			return Op{K: pick(r, []string{"addbatch", "addbatch", "import"}), Idx: ix, Items: items, Expect: "reject"}
 		case 3: // unknown index
 			k := pick(r, []string{"add", "del", "setmeta", "addbatch", "drop", "compress", "updcfg"})
 			op := Op{K: k, Idx: "nosuch", ID: "v0", Vec: genVec(r, gs.P.Dim), Meta: map[string]any{"color": "red"}, Prec: "float16", Expect: "reject"}
